@@ -4,6 +4,7 @@
 package proxy
 
 import (
+	"bytes"
 	"net"
 	"sync"
 	"sync/atomic"
@@ -22,6 +23,9 @@ type Proxy struct {
 	refuse   int32
 	closed   int32
 	delay    int64 // one-way latency in ns added to every forwarded chunk
+	holeOnWS int32 // 1: the first websocket handshake request opens a black hole (holeMode)
+	holeMode int32
+	onHole   func()
 }
 
 func New(target string) (*Proxy, error) {
@@ -65,6 +69,14 @@ func (p *Proxy) pipe(src, dst net.Conn, ctr, cut *int64, dir int32) {
 	for {
 		n, err := src.Read(buf)
 		if n > 0 {
+			if dir == 2 && atomic.LoadInt32(&p.holeOnWS) == 1 && bytes.Contains(bytes.ToLower(buf[:n]), []byte("upgrade: websocket")) {
+				if atomic.CompareAndSwapInt32(&p.holeOnWS, 1, 0) {
+					atomic.StoreInt32(&p.black, atomic.LoadInt32(&p.holeMode))
+					if p.onHole != nil {
+						p.onHole()
+					}
+				}
+			}
 			b := atomic.LoadInt32(&p.black)
 			if b == 1 || b == dir {
 				// swallowed
@@ -121,6 +133,15 @@ func (p *Proxy) Refuse(on bool) {
 	}
 	atomic.StoreInt32(&p.refuse, v)
 }
+// HoleOnWebsocketHandshake arms the proxy: the first websocket handshake request it sees opens a black hole in both
+// directions (mode 1; the request itself is swallowed) or in one (2: client -> server, 3: server -> client); f is
+// called at that moment.
+func (p *Proxy) HoleOnWebsocketHandshake(mode int32, f func()) {
+	p.onHole = f
+	atomic.StoreInt32(&p.holeMode, mode)
+	atomic.StoreInt32(&p.holeOnWS, 1)
+}
+
 // Delay adds a one-way latency to everything forwarded from now on (order is kept).
 func (p *Proxy) Delay(d time.Duration) { atomic.StoreInt64(&p.delay, int64(d)) }
 
